@@ -30,13 +30,13 @@ CFG = {
     text="Theorems (all pairs of hashed real trees: any contents, spans nested / partially overlapping / disjoint / empty, any level structure): both diffs empty implies equal content; if contents differ some direction reports a range; every reported range starts at a key the peer holds. Tied by exhaustive ordered-pair streams (all contents over 4-5 keys x all level assignments) and the implementation-side oracle.",
     assumptions=[A_TOTAL, A_LVL, A_CF, A_MODEL]),
  "C05": dict(streams=S("dsmall","drand","ssmall","srand"), level="proof",
-    theorems=[P+"C05_progress", P+"C05_rounds", P+"C05_quiescent", P+"C05_reachable"],
+    theorems=[P+"C05_progress_join", P+"C05_rounds_join", P+"C05_quiescent_join", P+"C05_progress", P+"C05_rounds", P+"C05_quiescent", P+"C05_reachable"],
     text="Theorems on the replica model (Model/Sync.lean: store + incrementally maintained tree; pull = hash both, serialise, diff, fetch ranges, merge, upsert): for replicas with different content a pull in at least one direction changes the receiver (join and peer-wins); n >= number of disagreeing keys two-way rounds end with equal stores and equal root hashes; under join the result is the pointwise join; converged replicas exchange nothing. The replica model itself is tied to the real code by the srand stream (schedules executed on real trees and on the model, ranges / fetched keys / stores / root hashes compared).",
-    assumptions=[A_TOTAL, A_LVL, "NoCollisions: no digest collision among page pre-images during the run", "values are identified with their digests; merge = max on a linear order, or peer-wins", A_MODEL]),
+    assumptions=[A_TOTAL, A_LVL, "NoCollisions: no digest collision among page pre-images during the run", "values are identified with their digests; merge = the join of ANY join-semilattice on the values (SemilatticeSup; *_join theorems; the max of a linear order is the special case under the old names), or peer-wins", A_MODEL]),
  "C06": dict(streams=S("ssmall","srand","drand"), level="proof",
-    theorems=[P+"C06_refine", P+"C06_safe", P+"C06_live", P+"C06_peerWins_three_replicas_counterexample", P+"C06_refine_stale", P+"C06_safe_stale", P+"C06_live_stale"],
+    theorems=[P+"C06_refine_join", P+"C06_safe_join", P+"C06_live_join", P+"C06_refine_stale_join", P+"C06_safe_stale_join", P+"C06_live_stale_join", P+"C06_join_not_held_before_pulls", P+"C06_refine", P+"C06_safe", P+"C06_live", P+"C06_peerWins_three_replicas_counterexample", P+"C06_refine_stale", P+"C06_safe_stale", P+"C06_live_stale"],
     text="Join merge (peer-wins with >= 3 replicas is refuted by a theorem); pulls may be atomic OR split into a plan and a later fetch of stale/arbitrary ranges (C06_*_stale); full in the quantifiers it covers: for ANY number of replicas and ANY schedule of writes and pulls (theorem, unbounded): no panic and every replica's tree mirrors its store at every step whatever its cache state (refinement); under join nothing is lost or invented (safety); after writes stop, n*|ops|+1 sweeps pulling between all ordered pairs in any order bring every replica to the join of everything written with equal root hashes (liveness). Peer-wins with >= 3 replicas admits a fair schedule that never converges: proved as a theorem on the model (C06_peerWins_three_replicas_counterexample), so that clause cannot hold for that merge; two-replica peer-wins is C05. In-flight (planned, later applied) pulls are also exercised on the real code by the srand stream.",
-    assumptions=[A_TOTAL, A_LVL, "NoCollisions", "join (max) merge; values identified with their digests", A_MODEL]),
+    assumptions=[A_TOTAL, A_LVL, "NoCollisions", "join merge = the join of ANY join-semilattice on the values (SemilatticeSup; *_join theorems: the join of everything written is the least upper bound of the stores; for the max of a linear order, old names, it is held by some replica); values identified with their digests", A_MODEL]),
  "C07": dict(streams=S("dsmall","drand","tdeep","dwide","tkeylen","dnear","tbig"), level="proof",
     theorems=[P+"C07", P+"C07_empty_local", P+"C07_histories"],
     text="Theorems: under the span condition every peer entry the local tree lacks or holds with another digest lies in a returned range (soundness of every consistent mark via Merkle injectivity + contiguity of sub-pages; the whole peer span is marked inconsistent at the first iteration; reduce keeps bad minus good); an empty replica obtains the whole span.",
